@@ -11,6 +11,7 @@ EXPLANATION = (
     "CFG paths, errors of execute_submsg propagate through the try_fold in process_response, and every contract call "
     "runs in its own cache (with_storage). The recursion execute_submsg -> router.execute -> ... -> process_response "
     "-> execute_submsg is structural, so the table holds for every tree and failure set."
+    " (R5) The reply mode acted on is the one the contract chose: lifting of Empty-typed sub-messages carries reply_on/id/payload/gas_limit over unchanged (C17's obligations under C02's id)."
 )
 TRUSTED = ["rustc type/borrow checker and MIR construction", "cwmt-facts driver", "vlib (provenance, path enumeration)",
            "C01.R3 (transactional commits only on Ok)", "Storage semantics of the overlay (C06)"]
